@@ -398,4 +398,59 @@ theorem eq_singleton_of_mem_of_length_le_one {α} (l : List α) (a : α) (ha : a
   | [], ha, _ => simp at ha
   | _ :: _ :: _, _, h => simp at h
 
+/-- a decidable form of `FunctionalLinks` -/
+def functionalLinksB (its : List (VehData × Option TripID)) : Bool :=
+  (its.all fun a => its.all fun b =>
+    (a.2 != b.2 || a.2.isNone || a.1.id.isNone || b.1.id.isNone || a.1.id == b.1.id) &&
+    (a.1.id != b.1.id || a.1.id.isNone || a.2.isNone || b.2.isNone || a.2 == b.2)) &&
+  (its.all fun a => a.1.id.isSome || a.2.isNone || decide (((idless its).filter fun it => it.2 == a.2).length ≤ 1))
+
+theorem functionalLinks_of_B (its : List (VehData × Option TripID)) (h : functionalLinksB its = true) : FunctionalLinks its := by
+  simp only [functionalLinksB, Bool.and_eq_true, List.all_eq_true, Bool.or_eq_true, bne_iff_ne, ne_eq,
+    Option.isNone_iff_eq_none, beq_iff_eq, Option.isSome_iff_ne_none, decide_eq_true_eq] at h
+  obtain ⟨hpair, hidl⟩ := h
+  refine ⟨?_, ?_, ?_⟩
+  · intro t a ha b hb x y hx hy
+    unfold linkOfTrip at hx hy
+    split at hx
+    · next h1 =>
+      split at hy
+      · next h2 =>
+        have := (hpair a ha b hb).1
+        rcases this with ((((h | h) | h) | h) | h)
+        · exact absurd (h1.trans h2.symm) h
+        · rw [h1] at h; cases h
+        · rw [hx] at h; cases h
+        · rw [hy] at h; cases h
+        · rw [hx, hy] at h; exact Option.some.inj h
+      · cases hy
+    · cases hx
+  · intro t
+    by_cases hne : ((idless its).filter fun it => it.2 == some t) = []
+    · rw [hne]; simp
+    · obtain ⟨a, ha⟩ := List.exists_mem_of_ne_nil _ hne
+      have ha1 := List.mem_filter.mp ha
+      have ha2 := List.mem_filter.mp ha1.1
+      have hat : a.2 = some t := by simpa using ha1.2
+      have hid : a.1.id = none := by simpa using ha2.2
+      rcases hidl a ha2.1 with ((h | h) | h)
+      · exact absurd hid h
+      · rw [hat] at h; cases h
+      · rw [hat] at h; exact h
+  · intro vid a ha b hb x y hx hy
+    unfold linkOfVeh at hx hy
+    split at hx
+    · next h1 =>
+      split at hy
+      · next h2 =>
+        have := (hpair a ha b hb).2
+        rcases this with ((((h | h) | h) | h) | h)
+        · exact absurd (h1.trans h2.symm) h
+        · rw [h1] at h; cases h
+        · rw [hx] at h; cases h
+        · rw [hy] at h; cases h
+        · rw [hx, hy] at h; exact Option.some.inj h
+      · cases hy
+    · cases hx
+
 end Gtfs.Rt
